@@ -313,4 +313,20 @@ theorem marshal_parse_ed25519 (o : Oracles) (priv comment : Bytes) (check : Nat)
 theorem curveOrder_bits : Nat.log2 (curveOrder 256) + 1 = 256 ∧ Nat.log2 (curveOrder 384) + 1 = 384 ∧
     Nat.log2 (curveOrder 521) + 1 = 521 := by decide +kernel
 
+
+/-! ## non-vacuity examples -/
+
+/-- `wrong_pass_error`: blocks with an invalid header exist (empty, and check words 1 ≠ 2) -/
+example : headerOk [] = none ∧ headerOk (putU32 1 ++ putU32 2 ++ putString algoED25519) = none := by decide +kernel
+/-- `marshal_parse_ed25519` / `consistent_if_accepted`: the hypotheses hold for the witness key -/
+example : wPriv.length = 64 ∧ wOracles.edPub = some (wPriv.drop 32) ∧
+    parsePlain wOracles (marshalPlain (.ed25519 wPriv) (nm "c") 9) = .ok (.ed25519 wPriv) (nm "c") := by
+  decide +kernel
+/-- `ec_consistent`: an accepted ECDSA section (toy oracle) -/
+example : parseECPriv ⟨fun _ _ => true, none, none, none, some [4]⟩ (PubKey.ecdsa 256 [4]).marshal
+    (putString (nm "nistp256") ++ putString [4] ++ putString [1] ++ putString []) = .ok (.ecdsa 256 [4] 1) [] := by
+  decide +kernel
+/-- padding: 13 bytes are padded with 1,2,3 to 16 -/
+example : genPadding 13 8 = [1, 2, 3] ∧ genPadding 16 16 = [] := by decide
+
 end XC.C39
